@@ -213,6 +213,8 @@ type Walker struct {
 	P *Prog
 	// constant tables: package-level variables initialised with a composite literal and never written
 	tableInits map[*types.Var]ast.Expr
+	varInits   map[*types.Var]ast.Expr
+	varInitPkg map[*types.Var]*packages.Package
 	tableInfos map[*types.Var]*packages.Package
 	// emitter[f] — f (transitively) reaches a sink.
 	emitter map[*types.Func]bool
@@ -221,6 +223,7 @@ type Walker struct {
 	domains map[string][]string
 	// Statistics.
 	InlinedHelpers map[string]int
+	OpaqueHelpers  map[string]bool // repository functions with a body that were not followed: their results are opaque holes
 	optMemo        map[*types.Func]bool
 	// InlineAllRuns makes every new run follow all generator-package functions
 	// (so that conditions computed by helper loops, e.g. "does this file need
@@ -295,7 +298,7 @@ type Run struct {
 
 func NewWalker(p *Prog) *Walker {
 	w := &Walker{P: p, emitter: map[*types.Func]bool{}, domains: map[string][]string{},
-		InlinedHelpers: map[string]int{}, MaxDepth: 40, RecLimit: 1, ConcatLists: true}
+		InlinedHelpers: map[string]int{}, OpaqueHelpers: map[string]bool{}, MaxDepth: 40, RecLimit: 1, ConcatLists: true}
 	w.computeEmitters()
 	return w
 }
@@ -718,7 +721,12 @@ func (r *Run) stmt(s ast.Stmt, env *Env) ctl {
 				if isErrorType(last) {
 					if _, isNil := vals[len(vals)-1].(VNil); !isNil {
 						if sv, ok := vals[len(vals)-1].(VSym); !ok || !strings.HasPrefix(sv.Key, "noerr:") {
-							r.Aborted = r.W.P.Pos(s.Pos())
+							// symbolic walks take every error return as the end of generation (callers propagate);
+							// concrete walks carry the error value to the caller, which tests it, and only the
+							// root's own error return ends generation
+							if _, concreteErr := vals[len(vals)-1].(*VStruct); !(r.W.Concrete && concreteErr && len(r.stack) > 1) {
+								r.Aborted = r.W.P.Pos(s.Pos())
+							}
 						}
 					}
 				}
@@ -1975,6 +1983,10 @@ func (r *Run) call(call *ast.CallExpr, env *Env) Val {
 					}
 				}
 			}
+		case "slices":
+			if v, ok := r.foldSlices(fn.Name(), call, env, rt); ok {
+				return v
+			}
 		case "path":
 			if v, ok := r.foldStrings("path."+fn.Name(), call, env); ok {
 				return v
@@ -2002,11 +2014,28 @@ func (r *Run) call(call *ast.CallExpr, env *Env) Val {
 			}
 		}
 	}
+	// protoc-gen-go getters are nil-safe: Get*() on a nil message pointer is the zero value
+	if _, isNil := f.Recv.(VNil); isNil && strings.HasPrefix(fn.Name(), "Get") && rt != nil {
+		if sig, ok := fn.Type().(*types.Signature); ok && sig.Recv() != nil && sig.Params().Len() == 0 {
+			if pt, ok := sig.Recv().Type().(*types.Pointer); ok {
+				if nm, ok := pt.Elem().(*types.Named); ok {
+					for i := 0; i < nm.NumMethods(); i++ {
+						if nm.Method(i).Name() == "ProtoReflect" {
+							return r.zero(rt)
+						}
+					}
+				}
+			}
+		}
+	}
 	decl := r.W.P.Decls[fn]
 	if decl != nil && decl.Body != nil {
 		if r.W.emitter[fn] || r.inlinableHelper(fn, decl) || (r.InlineAll && r.followInValidation(fn)) {
 			return r.inlineDecl(fn, f.Recv, call, env, rt)
 		}
+	}
+	if decl != nil && decl.Body != nil {
+		r.W.OpaqueHelpers[fn.Name()] = true
 	}
 	args := r.args(call, env)
 	// a pure forwarding wrapper (return g(params…)) is named after its target
@@ -2257,6 +2286,155 @@ func (r *Run) inlineLit(f *VFunc, call *ast.CallExpr, env *Env) Val {
 	return ret
 }
 
+// truth turns an evaluated value into a branch outcome the way cond does.
+func (r *Run) truth(v Val, pos token.Pos) bool {
+	switch b := v.(type) {
+	case VBool:
+		return b.B
+	case VSym:
+		return r.decideBool(b.Key, true, pos)
+	}
+	return r.decideBool(v.key(), true, pos)
+}
+
+// applyFunc calls a function value (literal or declared repository function) on evaluated arguments.
+func (r *Run) applyFunc(f *VFunc, vals []Val, pos token.Pos) (Val, bool) {
+	if len(r.stack) > r.W.MaxDepth {
+		return nil, false
+	}
+	if f.Lit != nil {
+		e2 := newEnv(f.Env)
+		info := f.Pkg.TypesInfo
+		sig, _ := info.Types[f.Lit].Type.(*types.Signature)
+		if sig == nil || sig.Variadic() {
+			return nil, false
+		}
+		i := 0
+		for _, fl := range f.Lit.Type.Params.List {
+			for _, n := range fl.Names {
+				var v Val = VNil{}
+				if i < len(vals) {
+					v = vals[i]
+				}
+				e2.define(info.Defs[n], v)
+				i++
+			}
+		}
+		r.litPos = append(r.litPos, pos)
+		ret := r.callBody(r.curFn(), sig, f.Pkg, f.Lit.Type, f.Lit.Body, e2)
+		r.litPos = r.litPos[:len(r.litPos)-1]
+		if ret == nil {
+			return VNil{}, true
+		}
+		return ret, true
+	}
+	if f.Decl == nil {
+		return nil, false
+	}
+	fn := f.Decl.Origin()
+	decl := r.W.P.Decls[fn]
+	pkg := r.W.P.DeclPkg[fn]
+	sig, _ := fn.Type().(*types.Signature)
+	if decl == nil || decl.Body == nil || sig == nil || sig.Variadic() {
+		return nil, false
+	}
+	for _, s := range r.stack {
+		if s == fn {
+			return nil, false
+		}
+	}
+	e2 := newEnv(nil)
+	info := pkg.TypesInfo
+	if decl.Recv != nil && len(decl.Recv.List) > 0 {
+		for _, n := range decl.Recv.List[0].Names {
+			recv := f.Recv
+			if recv == nil {
+				recv = VSym{Key: n.Name}
+			}
+			e2.define(info.Defs[n], recv)
+		}
+	}
+	i := 0
+	for _, fl := range decl.Type.Params.List {
+		if len(fl.Names) == 0 {
+			i++
+			continue
+		}
+		for _, n := range fl.Names {
+			var v Val = VNil{}
+			if i < len(vals) {
+				v = vals[i]
+			}
+			if n.Name != "_" {
+				e2.define(info.Defs[n], v)
+			}
+			i++
+		}
+	}
+	ret := r.callBody(fn, sig, pkg, decl.Type, decl.Body, e2)
+	if ret == nil {
+		return VNil{}, true
+	}
+	return ret, true
+}
+
+// foldSlices interprets the search helpers of package slices as the loops they abbreviate, so that a
+// generator written with slices.ContainsFunc explores exactly like one written with a range loop.
+func (r *Run) foldSlices(name string, call *ast.CallExpr, env *Env, rt types.Type) (Val, bool) {
+	if len(call.Args) != 2 {
+		return nil, false
+	}
+	var elemT types.Type
+	if tv, ok := r.info().Types[call.Args[0]]; ok && tv.Type != nil {
+		if sl, ok := tv.Type.Underlying().(*types.Slice); ok {
+			elemT = sl.Elem()
+		}
+	}
+	if elemT == nil {
+		return nil, false
+	}
+	switch name {
+	case "Contains", "Index":
+		lv := r.eval(call.Args[0], env)
+		x := r.eval(call.Args[1], env)
+		for i, e := range r.listElems(lv, call.Pos(), elemT) {
+			if r.equal(e, x, call.Pos(), "") {
+				if name == "Index" {
+					return VInt{N: int64(i), Label: fmt.Sprint(i)}, true
+				}
+				return VBool{B: true}, true
+			}
+		}
+		if name == "Index" {
+			return VInt{N: -1, Label: "-1"}, true
+		}
+		return VBool{B: false}, true
+	case "ContainsFunc", "IndexFunc":
+		lv := r.eval(call.Args[0], env)
+		f, _ := r.eval(call.Args[1], env).(*VFunc)
+		if f == nil {
+			return nil, false
+		}
+		for i, e := range r.listElems(lv, call.Pos(), elemT) {
+			v, ok := r.applyFunc(f, []Val{e}, call.Pos())
+			if !ok {
+				return VSym{Key: name + "(" + lv.key() + ",func)@" + fmt.Sprint(i), Typ: rt}, true
+			}
+			if r.truth(v, call.Pos()) {
+				if name == "IndexFunc" {
+					return VInt{N: int64(i), Label: fmt.Sprint(i)}, true
+				}
+				return VBool{B: true}, true
+			}
+		}
+		if name == "IndexFunc" {
+			return VInt{N: -1, Label: "-1"}, true
+		}
+		return VBool{B: false}, true
+	}
+	return nil, false
+}
+
 // foldStrings evaluates pure strings.* helpers on constant arguments.
 func (r *Run) foldStrings(name string, call *ast.CallExpr, env *Env) (Val, bool) {
 	args := r.args(call, env)
@@ -2399,7 +2577,17 @@ func (r *Run) builtin(name string, call *ast.CallExpr, env *Env, rt types.Type) 
 				r.structID++
 				return &VStruct{Name: "map", Fields: map[string]Val{}, id: r.structID, Concrete: true}
 			case *types.Slice:
-				return VList{Key: "list", Elems: []Val{}}
+				l := VList{Key: "list", Elems: []Val{}}
+				if len(call.Args) >= 2 {
+					// make([]T, n[, cap]): n zero elements, filled by index assignments
+					if n, ok := r.eval(call.Args[1], env).(VInt); ok && n.N > 0 && n.N < 4096 {
+						et := rt.Underlying().(*types.Slice).Elem()
+						for i := int64(0); i < n.N; i++ {
+							l.Elems = append(l.Elems, r.zero(et))
+						}
+					}
+				}
+				return l
 			}
 		}
 		return VSym{Key: fmt.Sprintf("%s@%s", name, r.W.P.Pos(call.Pos())), Typ: rt}
@@ -2706,10 +2894,18 @@ func (r *Run) pkgTable(o *types.Var) Val {
 
 // tableInit: the composite-literal initialiser of a package-level variable that no statement of its package
 // assigns to, stores through or takes the address of.
+// pkgVarInit: the initialiser of a package-level variable that is never written after its declaration.
+func (w *Walker) pkgVarInit(o *types.Var) (ast.Expr, *packages.Package) {
+	w.tableInit(o)
+	return w.varInits[o], w.varInitPkg[o]
+}
+
 func (w *Walker) tableInit(o *types.Var) (ast.Expr, *packages.Package) {
 	if w.tableInits == nil {
 		w.tableInits = map[*types.Var]ast.Expr{}
 		w.tableInfos = map[*types.Var]*packages.Package{}
+		w.varInits = map[*types.Var]ast.Expr{}
+		w.varInitPkg = map[*types.Var]*packages.Package{}
 		for _, pk := range w.P.Pkgs {
 			written := map[types.Object]bool{}
 			for _, f := range pk.Syntax {
@@ -2767,6 +2963,8 @@ func (w *Walker) tableInit(o *types.Var) (ast.Expr, *packages.Package) {
 								w.tableInits[obj] = vs.Values[i]
 								w.tableInfos[obj] = pk
 							}
+							w.varInits[obj] = vs.Values[i]
+							w.varInitPkg[obj] = pk
 						}
 					}
 				}
